@@ -323,13 +323,17 @@ update_desktop_file_entry (BusActivation       *activation,
     goto out;
 
   if (!_dbus_string_init (&str))
-    goto out;
+    {
+      BUS_SET_OOM (error);
+      goto out;
+    }
 
   if (!_dbus_string_append (&str, exec_tmp) ||
       !_dbus_replace_install_prefix (&str) ||
       !_dbus_string_steal_data (&str, &exec))
     {
       _dbus_string_free (&str);
+      BUS_SET_OOM (error);
       goto out;
     }
 
